@@ -1,4 +1,5 @@
 import FstVerif.Proofs.Seek
+import FstVerif.Proofs.EndToEnd
 import FstVerif.Props.C18
 /-
 C04 — automaton search. Statements here; proofs in Proofs/Stream.lean and
@@ -25,6 +26,24 @@ theorem C04_search (A : Aut σ) (hA : Contract A) (hg : GoodStore s den) (hr : R
         some (((den root).filter fun kv => lowerOK min kv.1 && upperOK max kv.1 && A.accepts kv.1).map
                 fun kv => (kv.1, kv.2, A.run A.start kv.1)) :=
   stream_correct hg hr root hroot hA.noEof hA.canSound min max
+
+/-- END TO END, on the bytes of the file a builder writes: every contract-abiding automaton,
+every bounds, every sorted map, every cache geometry -/
+theorem C04_file (rows cols ty : Nat) (hty : ty < 2^64) (kvs : KV) (hs : SortedKV kvs)
+    (hv : ∀ kv ∈ kvs, kv.2 < 2^64) (hn : kvs.length < 2^64) :
+    ∃ s bytes, insertAll (BState.new rows cols) kvs = .ok s ∧ s.fileBytes ty = .ok bytes ∧
+      (bytes.length < 2^64 →
+        ∃ m, fstNew (Src.ofList bytes) = .ok m ∧
+          ∀ {σ : Type} (A : Aut σ), (∀ x, A.acceptEof x = none) →
+            (∀ x, A.canMatch x = false → ∀ w, A.isMatch (A.run x w) = false) →
+            ∀ (min max : Bound),
+            ∃ s0, streamNew (byteAccess 3 (Src.ofList bytes)) A m.rootAddr min max = some s0 ∧
+            ∃ N, ∀ fuel, N ≤ fuel →
+              streamCollect (byteAccess 3 (Src.ofList bytes)) A m.rootAddr fuel s0 [] =
+                some ((kvs.filter fun kv =>
+                        lowerOK min kv.1 && upperOK max kv.1 && A.accepts kv.1).map
+                      fun kv => (kv.1, kv.2, A.run A.start kv.1))) :=
+  E2E.e2e_search rows cols ty hty kvs hs hv hn
 
 /-- it suffices that the hint is sound on states reachable from the start state -/
 theorem C04_search_reachable (A : Aut σ) (hEof : ∀ x, A.acceptEof x = none)
